@@ -818,7 +818,7 @@ func (c *Ctx) cleanLoopStopsOnlyForARemovalError() {
 	badName := ""
 	allInstrs(f, func(i ssa.Instruction) {
 		cl, ok := i.(*ssa.Call)
-		if !ok || !inLoop(cl) {
+		if !ok || !inLoopOrOnAnEarlyExitOfIt(cl) {
 			return
 		}
 		if isFreshError(cl) {
@@ -950,4 +950,21 @@ func (c *Ctx) tooLargeIsDecidedByTheLimits(rule string) {
 		c.check(decided, rule, key, c.ipos(cl), "the refusal is decided by a comparison with a configured limit",
 			"this 'too large' refusal is not decided by a comparison with a value of the configured limits but by a threshold of the function's own: a tree that is within every limit (file size, total size, count, depth) is refused for what one of its files contains — 3 MiB of 0xFF padding deflate beyond 100:1 — the extraction stops there with an empty file in its place, and the rest of the tree is missing")
 	})
+}
+
+// inLoopOrOnAnEarlyExitOfIt: the instruction lies on a cycle, or in a block that is only reached from the body of a loop
+// (an early exit: `if … { err = …; return }`), as opposed to the block the loop's own condition leaves to.
+func inLoopOrOnAnEarlyExitOfIt(in ssa.Instruction) bool {
+	if inLoop(in) {
+		return true
+	}
+	b := in.Block()
+	for k := 0; k < 6 && len(b.Preds) == 1; k++ {
+		p := b.Preds[0]
+		if len(p.Instrs) > 0 && inLoop(p.Instrs[0]) {
+			return p != loopHeaderOf(p.Instrs[0])
+		}
+		b = p
+	}
+	return false
 }
